@@ -133,7 +133,10 @@ func GenProgram(t *rapid.T, o GenOpt) *Gen {
 		for i := 0; i < n; i++ {
 			name := fmt.Sprintf("d%d", i)
 			if rapid.IntRange(0, 4).Draw(t, "dname") == 0 {
-				name = rapid.SampledFrom([]string{"a-b", "X_1", "n", "def"}).Draw(t, "dn") + fmt.Sprint(i)
+				name = rapid.SampledFrom([]string{"a-b", "X_1", "n", "def", "-x", "sep-", "not--az", "--", "_", "0"}).Draw(t, "dn") + fmt.Sprint(i)
+				if rapid.Bool().Draw(t, "dnsuffix") {
+					name = strings.TrimSuffix(name, fmt.Sprint(i)) + fmt.Sprint(i) + rapid.SampledFrom([]string{"", "-", "--z"}).Draw(t, "dntail")
+				}
 			}
 			val := s.defValue()
 			if i > 0 && rapid.IntRange(0, 2).Draw(t, "nest?") != 2 {
@@ -258,6 +261,11 @@ func (s *genState) entry(noTopAlt bool) string {
 func (s *genState) genFile(i int) {
 	t := s.t
 	name := fmt.Sprintf("f%d", i)
+	if rapid.IntRange(0, 3).Draw(t, "dotted") == 0 {
+		// a dot inside the base name: the .ra extension is still optional
+		name = fmt.Sprintf("f%d.v2", i)
+		s.label("include-name-with-dot")
+	}
 	var lines []Line
 	hasPS := false
 	if s.o.IncludePS && rapid.IntRange(0, 3).Draw(t, "fps") == 0 {
@@ -290,7 +298,7 @@ func (s *genState) genFile(i int) {
 		case 2:
 			if i > 0 && s.o.Includes && !hasPS {
 				sub := rapid.IntRange(0, i-1).Draw(t, "sub")
-				lines = append(lines, Line{K: KInclude, File: fmt.Sprintf("f%d", sub)})
+				lines = append(lines, Line{K: KInclude, File: s.files[sub]})
 				s.label("nested-include")
 				continue
 			}
